@@ -146,7 +146,7 @@ func VerifC09Statement() {
 	lit := encode(c)
 	fork := newScope()
 	rt.Reach("encoded")
-	cmd, params, err := expressions.StatementParametersParser(append([]rune("cmd "), lit...), fork.Process)
+	cmd, params, err := expressions.StatementParametersParser(verifC09join("cmd ", lit), fork.Process)
 	rt.Assert(err == nil, "a well-formed quoted literal was rejected in argument position")
 	if err != nil {
 		return
@@ -166,7 +166,7 @@ func VerifC09Expression() {
 	lit := encode(c)
 	fork := newScope()
 	rt.Reach("encoded")
-	_, err := expressions.ExecuteExpr(fork.Process, append([]rune("x = "), lit...))
+	_, err := expressions.ExecuteExpr(fork.Process, verifC09join("x = ", lit))
 	rt.Assert(err == nil, "a well-formed quoted literal was rejected in expression position")
 	if err != nil {
 		return
@@ -219,7 +219,7 @@ func VerifC09BlockArg() {
 	fork := newScope()
 	recorded = nil
 	rt.Reach("encoded")
-	_, err := fork.Execute(append([]rune("verifc09rec "), lit...))
+	_, err := fork.Execute(verifC09join("verifc09rec ", lit))
 	rt.Assert(err == nil, "a block holding one command with a well-formed quoted literal was rejected")
 	if err != nil {
 		return
@@ -243,7 +243,7 @@ func VerifC09BlockExpr() {
 	known(knownEscapedDQuote(lit, c))
 	fork := newScope()
 	rt.Reach("encoded")
-	exit, err := fork.Execute(append([]rune("x = "), lit...))
+	exit, err := fork.Execute(verifC09join("x = ", lit))
 	rt.Assert(err == nil, "a block holding one assignment of a well-formed quoted literal was rejected")
 	if err != nil {
 		return
@@ -333,4 +333,11 @@ func VerifC09Expand() {
 	}
 	rt.Reach("expanded")
 	rt.Assert(splicedOK(got, v), "the value of $v was not spliced into the literal unchanged")
+}
+
+// verifC09join: prefix + literal as a rune slice without spare capacity (a parser reading past
+// the end of its input must not go unnoticed).
+func verifC09join(prefix string, lit []rune) []rune {
+	r := append([]rune(prefix), lit...)
+	return r[:len(r):len(r)]
 }
